@@ -194,7 +194,7 @@ def make_curve(env, cfg, prefix="P"):
     from compmec.nurbs import Curve
     vals = [F(v) for v in cfg["vals"]]
     kv = KV(vals, cfg["mults"])
-    needs_band = cfg.get("op") in ("knot_remove_real", "degree_decrease", "clean", "knot_clean", "knotvector_setter", "update") or cfg["kind"] == "two"
+    needs_band = cfg.get("op") in ("knot_remove_real", "degree_decrease", "clean", "knot_clean", "knotvector_setter", "update", "shared") or cfg["kind"] == "two"
     if needs_band:
         P = _mixed_points(env, prefix, kv.n, {0, kv.n - 1}, cfg["p"])
     else:
@@ -298,25 +298,51 @@ def body(env, cfg):
         t2 = Curve([lo, lo, hi, hi])
         t2.fit_curve(c, nodes=(lo, hi))
     elif op == "shared":
-        shared = KnotVector(list(kv.U))
-        Q = env.reals("Q", kv.n)
-        a, b = Curve(shared, P, W), Curve(shared, Q)
-        sb = kmode.snapshot(b)
+        # every mutator on its own, each time from a fresh pair of curves built on ONE KnotVector object
         mid = (lo + hi) / 2 if (lo + hi) / 2 not in vals else (lo + 2 * hi) / 3
-        a.knot_insert([mid])
-        kmode.unchanged(env, b, sb, "shared KnotVector: knot_insert on the other curve")
-        a.degree_increase(1)
-        kmode.unchanged(env, b, sb, "shared KnotVector: degree_increase on the other curve")
-        a.degree = a.degree + 1
-        kmode.unchanged(env, b, sb, "shared KnotVector: degree setter on the other curve")
-        try:
-            a.knot_remove([mid])
-        except ValueError:
-            pass
-        if W is None:  # (for rational curves the setter goes through the rational fit: known finding F17)
+        Q = env.reals("Q", kv.n)
+
+        def m_insert(a):
+            a.knot_insert([mid])
+
+        def m_elev(a):
+            a.degree_increase(1)
+
+        def m_setter(a):
+            a.degree = a.degree + 2
+
+        def m_remove(a):
+            a.knot_remove([vals[len(vals) // 2]], None)
+
+        def m_reduce(a):
+            a.degree_decrease(1, None)
+
+        def m_kvset(a):
             a.knotvector = sorted(list(a.knotvector) + [(3 * lo + hi) / 4])
-        kmode.unchanged(env, b, sb, "shared KnotVector: knot_remove / knotvector setter on the other curve")
-        consistent(env, b, "shared KnotVector: the other curve")
-        consistent(env, a, "shared KnotVector: the mutated curve")
+
+        def m_clean(a):
+            a.clean()
+
+        muts = [("knot_insert", m_insert), ("degree_increase", m_elev), ("degree setter", m_setter)]
+        if W is None:  # (tolerance / fitting operations of rational curves: known finding F17)
+            if len(vals) > 2:
+                muts.append(("knot_remove", m_remove))
+            if kv.p >= 1:
+                muts.append(("degree_decrease", m_reduce))
+            muts += [("knotvector setter", m_kvset), ("clean", m_clean)]
+        for name, fn in muts:
+            shared = KnotVector(list(kv.U))
+            before = list(shared)
+            a, b = Curve(shared, P, W), Curve(shared, Q)
+            sb = kmode.snapshot(b)
+            try:
+                fn(a)
+            except ValueError:
+                pass
+            kmode.unchanged(env, b, sb, f"shared KnotVector: {name} on the other curve")
+            env.holds(f"shared KnotVector: the caller's KnotVector object is untouched by {name}",
+                      len(list(shared)) == len(before) and all(x is y or x == y for x, y in zip(list(shared), before)))
+            consistent(env, b, f"shared KnotVector ({name}): the other curve")
+            consistent(env, a, f"shared KnotVector ({name}): the mutated curve")
     kmode.unchanged(env, c, snap, f"{op} (non-mutating)")
     consistent(env, c, f"after {op}")
